@@ -61,6 +61,7 @@ def run(ctx):
                         lengths = sorted({1, nt + 1, nt + 3} | ({nt} if nt > 1 else set()))
                     for N in lengths:
                         one(ctx, ex, cplx, step, order, nt, N)
+    reuse(ctx, ex)
     nonneg(ctx, ex)
     rep.notes['trusted_base'] = ['python ast', 'ndverif abstract interpreter', 'convolve1d summary (DESIGN section 7)',
                                  'Vandermonde non-singularity']
@@ -171,6 +172,64 @@ def one(ctx, ex, cplx, step, order, nt, N):
               'every slot: L exactly, modelled error terms annihilated', label, key='extrap')
     rep.check(not cross, 'R-AXIS0', construct, where, {'cross_column_terms': cross[:3]},
               'column c only depends on column c', label, key='axis0')
+
+
+def reuse(ctx, ex):
+    """A Richardson object that was used before and then reconfigured behaves like a fresh one."""
+    rep = ctx.rep
+    rep.rule('R-REUSE', 'after rule() / __call__ were used and step_ratio, step, order or num_terms were reassigned, the object '
+             'extrapolates with the new parameters: the abstract result equals that of a freshly constructed object', 4)
+    where = ex.relpath
+
+    def seq_for(r, order, step, N, ncol=1):
+        h = Poly.sym('h')
+        rows, hs = [], []
+        for i in range(N):
+            hi = h * r ** (-i)
+            v = Poly.sym('L')
+            for j in range(4):
+                v = v + Poly.sym('a%d' % j) * hi ** (order + step * j)
+            rows.append(v)
+            hs.append(hi)
+        return Arr((N, 1), rows), Arr((N, 1), hs)
+    cases = [(dict(step_ratio=Poly.sym('r'), step=1, order=1, num_terms=2), dict(step_ratio=Poly.sym('s'))),
+             (dict(step_ratio=Poly.sym('r'), step=1, order=1, num_terms=2), dict(step=2, order=2)),
+             (dict(step_ratio=Fr(2), step=2, order=2, num_terms=2), dict(step_ratio=Fr(4))),
+             (dict(step_ratio=Poly.sym('r'), step=1, order=2, num_terms=1), dict(num_terms=2)),
+             (dict(step_ratio=Poly.sym('r'), step=1, order=1, num_terms=2), dict(order=3))]
+    for first, change in cases:
+        label = 'Richardson(%s) ; use ; set %s ; use' % (', '.join('%s=%r' % kv for kv in sorted(first.items())),
+                                                       ', '.join('%s=%r' % kv for kv in sorted(change.items())))
+        try:
+            I, models, reg = make(ctx.repo)
+            R = I.get_global('extrapolation', 'Richardson')
+            obj = R(**first)
+            s0, h0 = seq_for(first['step_ratio'], first['order'], first['step'], 5)
+            I.getattr(obj, 'rule')()
+            obj(s0, h0)
+            final = dict(first)
+            for k, v in change.items():
+                I.setattr(obj, k, v)
+                final[k] = v
+            s1, h1 = seq_for(final['step_ratio'], final['order'], final['step'], 5)
+            out1 = obj(s1, h1)
+            got = canon_out(out1, reg)
+            I2, models2, reg2 = make(ctx.repo)
+            R2 = I2.get_global('extrapolation', 'Richardson')
+            out2 = R2(**final)(s1, h1)
+            want = canon_out(out2, reg2)
+        except InterpRaise as exc:
+            rep.violation('R-REUSE', 'extrapolation.Richardson', where, {'raises': exc.exc_name, 'message': exc.msg[:100]},
+                          'no exception', label, key='reuse raises')
+            continue
+        rep.check(got == want, 'R-REUSE', 'extrapolation.Richardson', where,
+                  {'same_as_fresh_object': got == want, 'after_reuse': repr(got)[:200] if got != want else '', 'fresh': repr(want)[:200] if got != want else ''},
+                  'identical abstract result', label, key='reuse')
+
+
+def canon_out(out, reg):
+    from ..pipeline import canon_value
+    return canon_value(tuple(out), reg)
 
 
 def column_exponents_c(M):
